@@ -22,13 +22,13 @@ class PristineMemo:
         self.hits = 0
         self.misses = 0
 
-    def get(self, plan, objname, opname, args):
-        key = world.expr_key(plan, objname, opname, args)
+    def get(self, plan, objname, opname, args, sl=None):
+        key = world.expr_key(plan, objname, opname, args, sl)
         if key in self.d:
             self.hits += 1
             return self.d[key]
         self.misses += 1
-        ans = world.run_in_fork(world.pristine_main, world.sub_plan(plan, objname, args), objname, opname, args)
+        ans = world.run_in_fork(world.pristine_main, world.sub_plan(plan, objname, args), objname, opname, args, sl)
         if len(self.d) < self.limit:
             self.d[key] = ans
         return ans
@@ -82,6 +82,12 @@ def run_plan(plan, memo=None):
         names = [name] + world._refs(st.get("args", []))
         per_obj_sessions.setdefault(name, set()).add(st["s"])
         op_seq.setdefault(name, []).append(st["op"])
+        if rec.get("skipped"):
+            stats["resume_without_cursor"] = stats.get("resume_without_cursor", 0) + 1
+            continue
+        if "slice" in rec:
+            stats["lazy_steps"] = stats.get("lazy_steps", 0) + 1
+            stats["lazy_resumes"] = stats.get("lazy_resumes", 0) + int("resume" in st)
         if rec.get("undef") and "store" in st:
             undefined.add(st["store"])
         if any(n in undefined for n in names):
@@ -100,7 +106,7 @@ def run_plan(plan, memo=None):
         if rec["ans"].startswith('{"#":"raise"'):
             stats["raise_answers"] += 1
         kind = objects[name]["kind"]
-        pristine = memo.get(plan, name, st["op"], st.get("args", []))
+        pristine = memo.get(plan, name, st["op"], st.get("args", []), rec.get("slice"))
         stats["compared"] += 1
         if rec["ans"] != pristine:
             f = _sig("I1", kind, st["op"], rec["ans"], pristine)
